@@ -26,6 +26,11 @@ def timerange(starttime,stoptime,dt,exclusive=True):
     starttime=starttime*1.0
     stoptime=stoptime*1.0
     dt=dt*1.0
+    precision=max(scale(starttime),scale(dt))
+    # callers pass stoptime+dt: put the end of the range back onto the decimal grid (1.3+0.1 is 1.4000000000000001)
+    on_grid=normalize(stoptime,base=dt,offset=starttime,precision=precision)
+    if abs(on_grid-stoptime)<=1e-9*max(1.0,abs(stoptime)):
+        stoptime=on_grid
     i=starttime
     timerange=[]
     while i <= stoptime*1.0:
